@@ -79,29 +79,37 @@ impl EnfGroup {
             None => (0, 0, 0, None, None, None),
         };
         let content_pick = |rng: &mut Rng| -> u64 { if rng.chance(1, 12) { 9 } else { rng.below(4) } };
+        // holder contents: also the HTLC-carrying ones (4..=8 = 1..=5 HTLCs)
+        let hcontent_pick = |rng: &mut Rng| -> u64 {
+            let r = rng.below(100);
+            if r < 8 { 9 } else if r < 50 { rng.below(4) } else { 4 + rng.below(5) }
+        };
+        let cur_htlcs = e.as_ref().and_then(|e| e.current_holder_commit_info.as_ref().map(|i| !i.received_htlcs.is_empty())).unwrap_or(false);
         let kind = self.pick_kind(rng);
         match kind {
             "validate" | "hvalidate" => {
                 // steer towards progress: usually the next number with valid signatures
                 let base = if rng.chance(1, 8) { next.saturating_sub(1) } else { next };
                 let n = near(rng, base);
-                let mut c = content_pick(rng);
+                let mut c = hcontent_pick(rng);
                 if n.checked_add(1) == Some(next) && rng.chance(3, 4) {
                     // retry of the current commitment: mostly the same content
                     if let Some(v) = cur_c {
-                        for k in 0..4 {
+                        for k in ALL_CONTENTS {
                             if content(k).0 == v {
                                 c = k;
                             }
                         }
                     }
                 }
-                let s = if rng.chance(1, 7) { 0 } else { 1 };
-                let p = if content_policy_ok(c) { 1 } else { 0 };
+                // signature variant: mostly all genuine; else one of the defective lists
+                let v = if rng.chance(2, 3) { 1 } else { *rng.pick(&[0u64, 2, 3, 4, 5, 6, 7, 8]) };
+                let fact = sig_fact(v, content_htlcs(c));
+                let p = if content_policy_ok(c, n) { 1 } else { 0 };
                 if kind == "validate" {
-                    format!("validate {} {} {} {} {}", n, c, s, p, rng.range(1, 2))
+                    format!("validate {} {} {} {} {} {}", n, c, fact, p, rng.range(1, 2), v)
                 } else {
-                    format!("hvalidate {} {} {} {} {}", rng.range(4, 6), n, c, s, p)
+                    format!("hvalidate {} {} {} {} {} {}", rng.range(4, 6), n, c, fact, p, v)
                 }
             }
             "revoke" => format!("revoke {}", near(rng, next)),
@@ -117,19 +125,24 @@ impl EnfGroup {
             "signredundant" => {
                 let base = if rng.chance(1, 2) { next.saturating_sub(1) } else { next };
                 let n = near(rng, base);
-                let mut c = content_pick(rng);
+                let mut c = hcontent_pick(rng);
                 if n.checked_add(1) == Some(next) && rng.chance(3, 4) {
                     if let Some(v) = cur_c {
-                        for k in 0..4 {
+                        for k in ALL_CONTENTS {
                             if content(k).0 == v {
                                 c = k;
                             }
                         }
                     }
                 }
-                format!("signredundant {} {} {}", n, c, if content_policy_ok(c) { 1 } else { 0 })
+                format!("signredundant {} {} {}", n, c, if content_policy_ok(c, n) { 1 } else { 0 })
             }
-            "mutualclose" => format!("mutualclose {} 2", if rng.chance(4, 5) { 1 } else { 0 }),
+            "mutualclose" => {
+                // mutualclose <policyOk> <phase> <well-formed request?>: a well-formed request is still
+                // refused while the current holder commitment has pending HTLCs
+                let good = rng.chance(4, 5);
+                format!("mutualclose {} 2 {}", if good && !cur_htlcs { 1 } else { 0 }, if good { 1 } else { 0 })
+            }
             "signcp" => {
                 let base = if rng.chance(1, 6) { cc.saturating_sub(1) } else { cc };
                 let n = near(rng, base);
@@ -145,7 +158,7 @@ impl EnfGroup {
                         (cp_point_id(src, kind), content_pick(rng))
                     }
                 };
-                format!("signcp {} {} {} {} {}", n, ptid, c, if content_policy_ok(c) { 1 } else { 0 }, rng.range(1, 2))
+                format!("signcp {} {} {} {} {}", n, ptid, c, if content_policy_ok(c, 1) { 1 } else { 0 }, rng.range(1, 2))
             }
             "revokecp" => {
                 let base = if rng.chance(1, 6) { cr.saturating_sub(1) } else { cr };
@@ -185,7 +198,7 @@ impl Group for EnfGroup {
     }
     fn rule(&self) -> &'static str {
         "enforcement: real Node + channel (stub, then setup_channel) behind KVVPersister<MemoryKVVStore>; requests \
-         validate (phase 1/2, genuine or non-verifying counterparty signature, 5 contents incl. a policy-violating one), \
+         validate (phase 1/2; 10 contents: 0..5 HTLCs and a policy-violating one; signature lists: genuine, wrong commitment sig, first/middle/last HTLC sig wrong, empty, n-1, n+1, swapped), \
          revoke, activate, get point/secret/secret-or-none, sign holder (phase2/recovery/redundant), mutual close, sign \
          counterparty commitment (phase 1/2, seeded/unrelated/changed points), counterparty revocation (right/stale/future/\
          unrelated secrets), handler composites ValidateCommitmentTx2/RevokeCommitmentTx/GetPerCommitmentPoint(2) at protocol \
@@ -202,6 +215,10 @@ impl Group for EnfGroup {
             f("getsecret 0|getsecretnone 0|hgetpoint 4 1|setup|validate 0 0 1 1 2|activate|validate 1 1 1 1 1|getsecret 0|revoke 1|getsecret 0|getsecretnone 0|getsecret 1|validate 2 2 1 1 2|hrevoke 6 1|hgetpoint 4 3|hgetpoint 4 4|restart|getsecret 1|getsecret 2|revoke 18446744073709551615|getsecret 18446744073709551615|getsecret 18446744073709551614|getsecretnone 18446744073709551615|getsecretnone 18446744073709551614|hrevoke 6 18446744073709551614|revoke 18446744073709551614|hgetpoint 4 18446744073709551615|getsecret 1|getsecret 2|hrevoke 6 18446744073709551615|restart|getsecret 1"),
             // F13 witness (fixed by 0078200): u64::MAX / u64::MAX-1 against the secret-release guards
             f("getsecret 18446744073709551615|getsecretnone 18446744073709551614|setup|getsecret 18446744073709551615|getsecretnone 18446744073709551615|validate 0 0 1 1 2|activate|getsecret 18446744073709551615|getsecret 18446744073709551614|getsecretnone 18446744073709551614|revoke 18446744073709551615|hrevoke 5 18446744073709551614|validate 1 1 1 1 2|revoke 1|getsecret 18446744073709551615|revoke 18446744073709551615|getsecret 0"),
+            // HTLC signature lists: 5 HTLCs, too short (none / n-1) panics (restart = crash recovery), one wrong
+            // (first/middle/last), swapped, surplus; none of the defective ones opens the way to secret 0
+            f("setup|validate 0 0 1 1 2|activate|validate 1 8 2 1 2 5|restart|revoke 1|validate 1 8 2 1 1 6|restart|revoke 1|hvalidate 4 1 8 2 1 5|restart|getsecret 0|validate 1 8 0 1 2 2|validate 1 8 0 1 1 3|validate 1 8 0 1 2 4|validate 1 8 0 1 2 8|revoke 1|hvalidate 6 1 4 2 1 5|restart|revoke 1|validate 1 8 1 1 2 7|revoke 1|validate 2 4 0 1 2 0|validate 2 4 1 1 1 1|hrevoke 6 1|validate 3 6 1 1 2 1|revoke 3|validate 3 6 1 1 2 1|validate 0 5 1 0 2 1"),
+            f("setup|hvalidate 5 0 0 1 1 1|hvalidate 5 1 6 2 1 6|restart|hrevoke 5 0|hvalidate 5 1 6 0 1 8|hrevoke 5 0|hvalidate 5 1 6 1 1 1|hrevoke 5 0|hvalidate 4 2 5 2 1 5|restart|hvalidate 4 2 5 1 1 7|hgetpoint 4 3"),
             // F1 witness (fixed by 208b946): validate n+1, sign n, revoke n
             f("setup|validate 0 0 1 1 2|activate|validate 1 1 1 1 2|signholder 0|revoke 1|getsecret 0|restart|revoke 1|hrevoke 6 0"),
             // invalid signatures never open the way to a secret
@@ -282,7 +299,9 @@ impl Group for EnfGroup {
                 } else if e.next_holder_commit_info.is_some() {
                     if e.next_holder_commit_num == 0 { "activate".to_string() } else { format!("revoke {}", e.next_holder_commit_num) }
                 } else {
-                    format!("validate {} {} 1 1 {}", e.next_holder_commit_num, rng.below(4), rng.range(1, 2))
+                    let nn = e.next_holder_commit_num;
+                    let c = if nn > 0 && rng.chance(1, 2) { 4 + rng.below(5) } else { rng.below(4) };
+                    format!("validate {} {} 1 1 {} 1", nn, c, rng.range(1, 2))
                 }
             } else {
                 self.gen_op(rng, &w)
